@@ -93,6 +93,9 @@ SPEC_NAMES = {
     "is_method_of",
     "group_has",
     "count_calls",
+    "wsgi_body",
+    "at_iter_start",
+    "bridge_waits",
 }
 
 
@@ -351,6 +354,8 @@ class SpecMixin:
         a = self.ev(e.args[0], fr)
         b = self.ev(e.args[1], fr)
         if isinstance(a, SObj) and isinstance(b, SObj):
+            return a is b or a.oid == b.oid
+        if isinstance(a, PDict) and isinstance(b, PDict):
             return a is b or a.oid == b.oid
         r = ops.identical(self.ctx, a, b)
         return r if isinstance(r, bool) else mk_bool(r)
@@ -749,6 +754,40 @@ class SpecMixin:
             if isinstance(x, tuple) and isinstance(x[0], str) and x[0].endswith(name) and idx < 0:
                 idx = i
         return idx
+
+    def sp_bridge_waits(self, e, fr):
+        """bridge_waits(call_soon): calling call_soon(f, x) from the worker thread returns only
+        after f(x) has completed on the event loop.  Decided by running the closure on a probe."""
+        from .sym import Closure
+
+        cs = self.ev(e.args[0], fr)
+        if not isinstance(cs, Closure):
+            raise ContractError("bridge_waits needs a function defined in the code under analysis")
+        probe = self.make_symbolic("callable{record:probe_sends;yields:0;coro:1}", self.ctx.fresh_name("probe_send"))
+        before = len(self.traces.get("probe_sends_done", []))
+        f2 = Frame(fr.fn_qual, fr.module, parent=None)
+        self.call_value(cs, [probe, "message"], {}, f2)
+        return len(self.traces.get("probe_sends_done", [])) == before + 1
+
+    def sp_at_iter_start(self, e, fr):
+        """at_iter_start('x'): the value local x had when the loop iteration under consideration began"""
+        name = self.ev(e.args[0], fr)
+        d = getattr(self, "iter_start_locals", None) or {}
+        if name not in d:
+            raise ContractError(f"at_iter_start({name!r}): no such local at the start of the iteration")
+        v = d[name]
+        return v.value if isinstance(v, MaybeUnbound) else v
+
+    def sp_wsgi_body(self, e, fr):
+        """the iterable the WSGI application model returned in this unit (pyvc:WSGIBody)"""
+        b = getattr(self, "wsgi_body", None)
+        if b is None:
+            from .interp import BOTTOM
+
+            self.bottoms = getattr(self, "bottoms", 0) + 1
+            self.bottom_where = "wsgi_body(): the application was not called"
+            return BOTTOM
+        return b
 
     def sp_count_calls(self, e, fr):
         """count_calls('Class.method'): number of recorded calls with that name; not defined over a
